@@ -136,8 +136,7 @@ func (f *FibStrategyTree) FindNextHopsEnc(name enc.Name) []*FibNextHopEntry {
 	var nexthops []*FibNextHopEntry
 	for ; curNode != nil; curNode = curNode.parent {
 		if len(curNode.nexthops) > 0 {
-			nexthops = make([]*FibNextHopEntry, len(curNode.nexthops))
-			copy(nexthops, curNode.nexthops)
+			nexthops = copyNextHops(curNode.nexthops)
 			break
 		}
 	}
@@ -249,7 +248,7 @@ func (f *FibStrategyTree) GetAllFIBEntries() []FibStrategyEntry {
 
 		// If has any nexthop entries, add to list
 		if len(fsEntry.nexthops) > 0 {
-			entries = append(entries, fsEntry)
+			entries = append(entries, fsEntry.snapshot())
 		}
 	}
 	return entries
@@ -300,7 +299,7 @@ func (f *FibStrategyTree) GetAllForwardingStrategies() []FibStrategyEntry {
 
 		// If has any nexthop entries, add to list
 		if fsEntry.strategy != nil {
-			entries = append(entries, fsEntry)
+			entries = append(entries, fsEntry.snapshot())
 		}
 	}
 	return entries
